@@ -27,3 +27,15 @@ chk("C16",
     "Trusted: as_strided (recorded, not executed, in the integer lane), fake C-contiguous array model with itemsize 8, NumPy "
     "object loops, the naive formulas written in the harness, numba kernels as .py_func. Per fixed rank; induction over rank not made.",
     "symbolic execution on unbounded z3 integers (inductive-style obligations) + SMT equivalence with naive formulas", "DESIGN §3 C16")
+chk("C15",
+    "(a) one inductive step, unbounded depth: the real ContextTracker.__enter__/__exit__/__call__ of no_autodiff, mem_guard_off and "
+    "mem_guard_on run with `_depth` a symbolic unbounded integer and `_depth_tracker` a z3 array under the invariant keys=[0,depth); "
+    "z3 discharges frame (enter writes only key depth, exit pops only key depth-1), restore (enter;exit returns switch, depth and "
+    "tracker to the pre-state) and decorator (body runs inside, exit executed when the body raises) obligations; the induction over "
+    "well-nested sequences is on paper and cross-checked by executing every well-nested forest of <=3 (thorough 4) scopes with an "
+    "exception at each position. (b) 18 programs (views, in-place, out=, shape assignment) inside no_autodiff: z3 decides the values "
+    "equal the tracked run for all real inputs; creator/base/_ops/grads/locks/array identity observed per path.",
+    "Trusted: z3 array theory + quantified invariant; well-nested use (no generators suspended in a scope, no threads); dtype equality "
+    "is left to the dtype lane of C03.",
+    "symbolic execution at unbounded symbolic depth (inductive step obligations to z3) + bounded exhaustive nesting + SMT value equivalence",
+    "DESIGN §3 C15")
